@@ -105,7 +105,7 @@ SEQ = {
     "C03": dict(oracle=None, proj=EV, reference=True),
     "C04": dict(oracle=None, proj=("ev", "probe"), reference=True),
     "C05": dict(oracle="C05", proj=("ev", "S"), reference=True),
-    "C06": dict(oracle="C06", proj=("ev", "probe", "L", "O"), reference=False),
+    "C06": dict(oracle="C06", proj=("ev", "probe", "tap", "L", "O"), reference=False),
     "C07": dict(oracle="C07", proj=(), reference=False),
     "C10": dict(oracle="C10", proj=("ev", "O"), reference=True),
     "C13": dict(oracle=None, proj=("ev", "probe", "O"), reference=True),
